@@ -146,36 +146,20 @@ let grid_points step k f =
   done
 
 let () =
-  register "c13.grid" ~doc:"two-row programs: line advance -300..300 x operation advance 0..600 (every point when n > 8, every third point otherwise), n LineEncoding tuples with line_range <= 127; instruction bytes + read-back oracle"
+  register "c13.grid" ~doc:"two-row programs: line advance -300..300 x operation advance 0..600 (every point when n > 8, every third point otherwise), n LineEncoding tuples over line_base -128..0, line_range 1..255, min_inst_len and max_ops in {1,2,4} (tuple 0 of odd seeds: -5/14/1/1, tuple 1: -128/250/1/1); instruction bytes + read-back oracle"
     (fun ~seed ~n emit ->
       let lazy_emit = sharded emit in
       let r = mk_rng seed in
       for t = 0 to n - 1 do
-        let (lb, lr, mil, mops, ver) = if t = 0 && seed land 1 = 1 then (-5, 14, 1, 1, 4) else pick_tuple r ~lr_lo:1 ~lr_hi:127 in
+        let (lb, lr, mil, mops, ver) = if t = 0 && seed land 1 = 1 then (-5, 14, 1, 1, 4)
+          else if t = 1 then (-128, 250, 1, 1, 4)
+          else if t land 1 = 0 then pick_tuple r ~lr_lo:128 ~lr_hi:255 else pick_tuple r ~lr_lo:1 ~lr_hi:127 in
         let h = grid_hdr lb lr mil mops ver in
         grid_points (if n <= 8 then 3 else 1) t (fun ladv oadv ->
           lazy_emit (fun () ->
             let ops = grid_ops mil mops ladv oadv in
             (Printf.sprintf "c13.grid %d %d %d %d %d %d %d" lb lr mil mops ver ladv oadv,
              fun dbg -> show_res hex_of_bytes (eval_insns dbg h ops))))
-      done);
-  register "c13.gridx" ~doc:"the same grid (sub-sampled 1/7) for tuples with line_range 128..255, for which the documented precondition of LineProgram::new holds: expected = the documented behaviour (a program that reads back)"
-    (fun ~seed ~n emit ->
-      let r = mk_rng seed in
-      for t = 0 to n - 1 do
-        let (lb, lr, mil, mops, ver) =
-          if t = 0 then (-128, 250, 1, 1, 4)
-          else if t = n - 1 then (-3, 200, 1, 1, 4)          (* rejected by `new` in release too (F9) *)
-          else begin
-            (* tuples that release builds accept although line_range >= 128: line_base + line_range < 128 *)
-            let (_, lr, mil, mops, ver) = pick_tuple r ~lr_lo:128 ~lr_hi:255 in
-            let hi = 127 - lr in                              (* line_base in -128..hi, and > -lr *)
-            let lo = max (-128) (1 - lr) in
-            let lb = if hi < lo then lo else lo + rand_int r (hi - lo + 1) in
-            (lb, lr, mil, mops, ver)
-          end in
-        grid_points 7 t (fun ladv oadv ->
-          emit (Printf.sprintf "c13.gridx %d %d %d %d %d %d %d" lb lr mil mops ver ladv oadv) "ok" "ok")
       done);
   register "c13.newpre" ~doc:"LineProgram::new for every (line_base, line_range) in -128..127 x 0..255: expected = the documented precondition line_base <= 0 < line_base + line_range"
     (fun ~seed:_ ~n:_ emit ->
@@ -224,7 +208,7 @@ let gen_script r ~clean =
   let mil = if rare 40 then pick r [| 0; 3; 255 |] else pick r [| 1; 1; 2; 4 |] in
   let mops = if ver >= 4 then (if rare 40 then pick r [| 0; 3; 255 |] else pick r [| 1; 1; 2; 4 |])
     else (if rare 15 then 2 else 1) in
-  let lr = if rare 40 then 0 else pick r [| 1; 2; 10; 14; 14; 50; 127; 1 + rand_int r 127 |] in
+  let lr = if rare 40 then 0 else pick r [| 1; 2; 10; 14; 14; 50; 127; 128; 243; 244; 255; 1 + rand_int r 255 |] in
   let lb = if rare 30 then pick r [| 1; 5; -128; 127 |] else
       let lo = max (-128) (1 - lr) in pick r [| 0; lo; max lo (-5); lo + rand_int r (0 - lo + 1) |] in
   let uver = if rare 20 then 2 + rand_int r 4 else (if ver >= 2 && ver <= 5 then max ver (2 + rand_int r 4) else ver) in
@@ -376,7 +360,13 @@ let () =
         let k = 1 + rand_int r (mops - 1) in
         out 3 h [ Begin (Some (1, Z.of_int 0x1000)); Row (plain_row Z.zero (Z.of_int k) (Z.of_int 7));
                   SetAddr (1, Z.of_int 0x2000); Row (plain_row (Z.of_int 1) Z.zero (Z.of_int 8));
-                  End (Z.of_int 2, Z.zero) ]
+                  End (Z.of_int 2, Z.zero) ];
+        (* family 4: address advance x maximum_operations_per_instruction overflows u64 (op_advance) *)
+        let mops = pick r [| 2; 4 |] in
+        let h = grid_hdr (-5) 14 1 mops 4 in
+        let ao = Z.add (Z.div (p2 64) (Z.of_int mops)) (Z.of_int (rand_int r 3)) in
+        out 4 h [ Begin (Some (1, Z.of_int 0x10)); Row (plain_row Z.zero Z.zero (Z.of_int 7));
+                  Row (plain_row ao Z.zero (Z.of_int 7)); End (Z.succ ao, Z.zero) ]
       done)
 
 let init () = ()
